@@ -45,7 +45,7 @@ def secrets_job(ctx):
     harness runs each against a real listening endpoint with the scenario's secrets planted."""
     ctx.build("c20")
     s = ctx.tlc("MCSecrets", "MCSecrets.thorough.cfg" if ctx.thorough else "MCSecrets.quick.cfg", workers=4, timeout=900,
-                require_actions=("Peek", "Sni", "Rules", "Demux", "TlsAccept", "Channel", "Request", "Ping", "Speed", "RProxy", "Auth", "Promote"))
+                require_actions=("QuicAccept", "Peek", "Sni", "Rules", "Demux", "TlsAccept", "Channel", "Request", "Ping", "Speed", "RProxy", "Auth", "Promote"))
     ctx.spec_must_hold(s)
     r = ctx.harness("c20", ["--vectors", s["out"]], env={"VERIF_ROOT": ROOT}, timeout=1500)
     reached, unreached = {}, {}
@@ -92,7 +92,7 @@ def run(ctx):
         "secrets_scenarios": {k: sec[k] for k in ("scenarios", "reached", "unreached", "model_states", "planted_values")},
         "traces_validated_against_impl": sec["scenarios"] - sum(sec["unreached"].values()),
         "leaking_statements": len(seen),
-        "rule": "Secrets.tla / MCSecrets: every scenario of {configuration: main host with one / several labels, allowed_sni, QUIC on/off} x {name in the SNI: main host, <credentials>.<main host>, allowed name, ping host, unknown, none} x {ALPN} x {source allowed / denied by the rules} x {handshake completed / stalled until the timeout / aborted / garbage / hello never completed} x {verdict on the credentials label} x {request kind x Proxy-Authorization 0..2 values of every class mix x Authorization 0..2 x Cookie none / one / several pairs / several fields x spelling of the names x ping marker} x {HTTP/1.1, HTTP/2} is run against a real listening endpoint with a unique canary per secret atom of the model; the end of each connection is taken from hook events and compared with the model. Besides: every scenario TLC generates for Tunnel.tla (all request kinds, all Proxy-Authorization classes, every failure outcome, SNI-credential connections) is replayed with unique canaries in Proxy-Authorization, the SNI credentials label and the configured passwords; every log record at trace level is searched for the canaries verbatim, base64-encoded and base64-decoded. Non-trivial = scenarios that end in a rejection or failure path.",
+        "rule": "Secrets.tla / MCSecrets: every scenario of {configuration: main host with one / several labels, allowed_sni, QUIC on/off} x {name in the SNI: main host, <credentials>.<main host>, allowed name, ping host, unknown, none} x {ALPN} x {source allowed / denied by the rules} x {handshake completed / stalled until the timeout / aborted / garbage / hello never completed} x {verdict on the credentials label} x {request kind x Proxy-Authorization 0..2 values of every class mix x Authorization 0..2 x Cookie none / one / several pairs / several fields x spelling of the names x ping marker} x {HTTP/1.1, HTTP/2}, and of the routed slice {request leaving the tunnel channel by its path: reverse proxy's path mask (HTTP/1.1 with / without Upgrade, HTTP/3), /speed/ paths, ping marker; or arriving on the reverse-proxy / speedtest host} x {connection with / without a credentials label} x {service working / origin refusing connections / origin closing mid-response / upload cut short / no speed test} x {HTTP/1.1, HTTP/2, HTTP/3 over QUIC} is run against a real listening endpoint with a unique canary per secret atom of the model; the end of each connection is taken from hook events and compared with the model. Besides: every scenario TLC generates for Tunnel.tla (all request kinds, all Proxy-Authorization classes, every failure outcome, SNI-credential connections) is replayed with unique canaries in Proxy-Authorization, the SNI credentials label and the configured passwords; every log record at trace level is searched for the canaries verbatim, base64-encoded and base64-decoded. Non-trivial = scenarios that end in a rejection or failure path.",
         "samples": cov["samples"][:2],
     }, assumptions=[
         "the predicate is a substring search over formatted log records; the specification contributes the enumeration of paths (every action of Tunnel.tla including every failure exit is replayed)",
